@@ -94,6 +94,8 @@ def neighbours(name, text):
             mid = toks[idx[id(a.last_token)] + 1: idx[id(b.first_token)]]
             if any(t.raw_text and type(t).__name__ not in ('Newline', 'Whitespace') for t in mid): continue       # a separator, an indent, a comment in between
             if not a.last_token.raw_text or not b.first_token.raw_text: continue                                 # zero-width marks are not visible neighbours (Nbh)
+            shape = ''.join('S' if t.raw_text else 'E' for t in mid)
+            if re.fullmatch(r'E*S*E*', shape) is None: continue                                                  # Nbh: a zero-width structural token splits the run (e.g. blanks before and after an Eol mark)
             x, y = a.spacing_after, b.spacing_before
             if x != y: return f'{type(a).__name__}.spacing_after = {x!r} but {type(b).__name__}.spacing_before = {y!r} (text between: {between!r})'
     return None
